@@ -627,6 +627,11 @@ func (e *btEnv) checkArray(when string, x *btArr) {
 	if err := atree.VerifyArraySerialization(x.a, hx.DecMode(), hx.EncMode(), btDecodeStorable, btDecodeTypeInfo, btCompareStorable); err != nil {
 		e.violation(fmt.Sprintf("%s: VerifyArraySerialization: %v", when, err))
 	}
+	if !x.a.Inlined() {
+		if bad := hx.ArraySizeBand(e.rec, atree.VerifArrayRoot(x.a)); bad != "" {
+			e.violation(fmt.Sprintf("%s: size band: %s", when, bad))
+		}
+	}
 }
 
 // arrayBatch runs the real NewArrayFromBatchData on vals, traced.
@@ -1142,7 +1147,16 @@ func (e *btEnv) scenarioBytes() {
 	T := int(e.T)
 	// lengths around the fast-path boundary for element sizes 3 and 4 and for the estimates used
 	var n int
-	switch e.rng.Intn(8) {
+	forceSmall, forceEst := -1, -1
+	switch e.rng.Intn(10) {
+	case 8:
+		// actual element bytes within a few bytes of maxThreshold under an UNDER-estimate: the
+		// fast path must fall back (the root slab would exceed the maximum by its prefix)
+		n = int(e.maxThr)/4 - 2 + e.rng.Intn(5)
+		forceSmall, forceEst = 2, e.rng.Intn(4)
+	case 9:
+		n = int(e.maxThr)/3 - 2 + e.rng.Intn(5)
+		forceSmall, forceEst = 1, e.rng.Intn(3)
 	case 0:
 		n = 0
 	case 1:
@@ -1166,6 +1180,9 @@ func (e *btEnv) scenarioBytes() {
 	}
 	data := make([]byte, n)
 	small := e.rng.Intn(3) // 0 any, 1 all below 24, 2 all at/above 24
+	if forceSmall >= 0 {
+		small = forceSmall
+	}
 	for i := range data {
 		switch small {
 		case 1:
@@ -1177,6 +1194,9 @@ func (e *btEnv) scenarioBytes() {
 		}
 	}
 	est := []uint32{0, 0, 3, 4, 1, 2, 8}[e.rng.Intn(7)]
+	if forceEst >= 0 {
+		est = uint32(forceEst)
+	}
 	parts := make([]string, len(data))
 	for i, b := range data {
 		parts[i] = fmt.Sprintf("%d", b)
